@@ -327,7 +327,8 @@ def telescope(run):
         for e in calls_in(fn, 'graphite2::telemetry::set_category'):
             n += 1
             guards = [d for _, d in fn.elements() if d['k'] == 'DeclStmt' and any('telemetry::category' in (x.get('t') or '') for x in d.get('decls', []))]
-            ok = [g for g in guards if fn.block_of[g['i']] in fn.dominators()[fn.block_of[e['i']]]]
+            ok = [g for g in guards if (fn.block_of[g['i']] != fn.block_of[e['i']] and fn.block_of[g['i']] in fn.dominators()[fn.block_of[e['i']]])
+                  or (fn.block_of[g['i']] == fn.block_of[e['i']] and fn.pos_of[g['i']] < fn.pos_of[e['i']])]
             i2 = 'raw set_category in %s @%s' % (fn.q.split('graphite2::')[-1], e['ln'])
             if ok:
                 run.held('NOGLOBAL', i2, fn.loc(e), 'inside the scope of the guard declared at line %s' % ok[0]['ln'])
